@@ -323,5 +323,19 @@ func cmpImage(row int, which string, img ref.Image, present []bool, got []byte, 
 	if pos != len(got) {
 		return mis("consumed", "row %d %s image: column-by-column decode ends at offset %d of a %d byte image", row, which, pos, len(got))
 	}
+	// decoding must not write into the image (it aliases the event): the bytes
+	// are still those the master encoded and a second walk gives the same cells
+	if !bytes.Equal(got, want) {
+		return mis("image-modified", "row %d %s image was changed by decoding it: now %s, encoded %s (first difference at offset %d)", row, which, clip(got), clip(want), diffAt(got, want))
+	}
+	cols2, pos2, err2 := Walk(got, gotPresent, gotNulls, tm, unsigned)
+	if err2 != nil || pos2 != pos || len(cols2) != len(cols) {
+		return mis("second-walk", "row %d %s image: a second column-by-column decode ends at %d (first: %d), error %v", row, which, pos2, pos, err2)
+	}
+	for c := range cols {
+		if cols[c].State != cols2[c].State || cols[c].Consumed != cols2[c].Consumed || !bytes.Equal(cols[c].Data, cols2[c].Data) {
+			return mis("second-walk", "row %d %s column %d (type %d): the second decode gives %s (%d bytes consumed), the first gave %s (%d)", row, which, c, tm.Types[c], clip(cols2[c].Data), cols2[c].Consumed, clip(cols[c].Data), cols[c].Consumed)
+		}
+	}
 	return Mismatch{}
 }
